@@ -4,7 +4,6 @@ import (
 	"encoding/binary"
 	"math"
 	"math/rand/v2"
-	"sync"
 )
 
 // ---------- alphabets ----------
@@ -195,32 +194,18 @@ func genTuples(r *rand.Rand, objs, rels, users []string) []tup {
 var storeAlpha = []string{"S", "T", "", "S\x04\x01M", "SM"}
 var modelAlpha = []string{"M", "N", "", "M\x06\x00"}
 
-// pendingTwin holds, per PRNG (one per worker), an input whose contextual tuples will be presented once
-// more in another order: "tuple component order does not affect the invariant hash" is only exercised
-// when the same multiset of tuples really arrives in two orders.
-var (
-	pendingTwinMu sync.Mutex
-	pendingTwin   = map[*rand.Rand]*invIn{}
-)
+func genInv(r *rand.Rand) invIn { return genInvFresh(r) }
 
-func genInv(r *rand.Rand) invIn {
-	pendingTwinMu.Lock()
-	tw := pendingTwin[r]
-	delete(pendingTwin, r)
-	pendingTwinMu.Unlock()
-	if tw != nil {
-		out := *tw
-		out.tuples = append([]tup(nil), tw.tuples...)
-		r.Shuffle(len(out.tuples), func(i, j int) { out.tuples[i], out.tuples[j] = out.tuples[j], out.tuples[i] })
-		return out
+// genInvTwin regenerates the input of the previous index (same PRNG stream) and presents its contextual
+// tuples in another order: "tuple component order does not affect the invariant hash" is only exercised
+// when the same multiset of tuples really arrives in two orders.
+func genInvTwin(prev, r *rand.Rand) invIn {
+	in := genInvFresh(prev)
+	if len(in.tuples) < 2 {
+		return genInvFresh(r)
 	}
-	in := genInvFresh(r)
-	if len(in.tuples) >= 2 && r.IntN(3) == 0 {
-		cp := in
-		pendingTwinMu.Lock()
-		pendingTwin[r] = &cp
-		pendingTwinMu.Unlock()
-	}
+	in.tuples = append([]tup(nil), in.tuples...)
+	r.Shuffle(len(in.tuples), func(i, j int) { in.tuples[i], in.tuples[j] = in.tuples[j], in.tuples[i] })
 	return in
 }
 
@@ -235,7 +220,7 @@ func genInvFresh(r *rand.Rand) invIn {
 }
 
 func genBatch(r *rand.Rand) batchIn {
-	return batchIn{invIn: genInv(r), object: pick(r, smallAlpha), relation: pick(r, smallAlpha), user: pick(r, smallAlpha)}
+	return batchIn{invIn: genInvFresh(r), object: pick(r, smallAlpha), relation: pick(r, smallAlpha), user: pick(r, smallAlpha)}
 }
 
 var invAlpha = []uint64{0, 1, 0x0104, 0x6101040000000000, math.MaxUint64}
